@@ -144,8 +144,8 @@ class Merger(object):
         toffset = 0
         for i, (subdir, sc, st) in enumerate(
                 zip(self.subdirs, spike_clusters_l, spike_templates_l)):
-            n_clu = np.max(sc) + 1
-            n_tmp = np.max(st) + 1
+            n_clu = int(np.max(sc)) + 1
+            n_tmp = int(np.max(st)) + 1
             sc += coffset
             st += toffset
             self.cluster_offsets.append(coffset)
